@@ -123,8 +123,19 @@ def _path_offset(path):
 
 
 def fixed_value(tname, path, k, seed=0):
+    """The k-th value of a channel.  The pool (extremes, NaN payloads, ...) is dealt cyclically; from the second round on the low
+    bits of each value are XOR-ed with the round number, so that no two blocks of a channel are equal (a reader that fetches the
+    wrong chunk must not get the right values by periodicity).  Booleans stay 0/1."""
     pool = POOLS[tname]
-    return pool[(k + _path_offset(path) + seed) % len(pool)]
+    i = k + _path_offset(path) + seed
+    v = pool[i % len(pool)]
+    era = k // len(pool)
+    if era == 0 or tname == 'Boolean' or len(pool) < 5:
+        return v
+    size = 8 if tname == 'TimeStamp' else (_COMPONENT.get(tname) or len(v))     # the fractions / the first component / the value
+    low = min(size, 2)
+    x = (int.from_bytes(v[:low], 'little') ^ (era * 37 + 1)) & ((1 << (8 * low)) - 1)
+    return x.to_bytes(low, 'little') + v[low:]
 
 
 def string_values(n, nbytes, path, k, seed=0):
